@@ -383,7 +383,7 @@ def textIndent (c : OutCfg) (o : RenderOpts) (s : OutSt) (pc : Chunk) (prevCol p
   if s.didNl then
     outputToColumn c (preIndent c s pc) pc.col ((pc.isPP ∧ ppIwtEff c = 2) ∨ (!pc.isPP ∧ c.iwt = 2))
   else
-    let col := if pc.col < s.col then s.col else pc.col
+    let col := sameLineCol s pc
     outputToColumn c s col ((o.alignWithTabs ∧ pc.wasAligned ∧ prevCol + prevLen + 1 ≠ col)
                      ∨ (o.alignKeepTabs ∧ pc.afterTab))
 
@@ -1163,8 +1163,8 @@ theorem textIndent_of_didNl (c : OutCfg) (o : RenderOpts) (s : OutSt) (pc : Chun
 
 theorem textIndent_of_not_didNl (c : OutCfg) (o : RenderOpts) (s : OutSt) (pc : Chunk) (prevCol prevLen : Nat)
     (h : s.didNl = false) : textIndent c o s pc prevCol prevLen =
-      outputToColumn c { s with trail := pc.ty = "STRING_MULTI" } (if pc.col < s.col then s.col else pc.col)
-        ((o.alignWithTabs ∧ pc.wasAligned ∧ prevCol + prevLen + 1 ≠ (if pc.col < s.col then s.col else pc.col))
+      outputToColumn c { s with trail := pc.ty = "STRING_MULTI" } (sameLineCol { s with trail := pc.ty = "STRING_MULTI" } pc)
+        ((o.alignWithTabs ∧ pc.wasAligned ∧ prevCol + prevLen + 1 ≠ (sameLineCol { s with trail := pc.ty = "STRING_MULTI" } pc))
                      ∨ (o.alignKeepTabs ∧ pc.afterTab)) := by
   unfold textIndent
   exact if_neg (by rw [h]; decide)
@@ -1214,22 +1214,42 @@ theorem textIndent_first (c : OutCfg) (o : RenderOpts) (s : OutSt) (pc : Chunk) 
       simp at hat
       rcases h with h | h <;> rcases hat with h' | h' <;> simp_all
 
-/-- a chunk that is not first on its line, spaces only: exactly the column difference -/
+theorem sameLineCol_trail (s : OutSt) (t : Bool) (pc : Chunk) : sameLineCol { s with trail := t } pc = sameLineCol s pc := rfl
+
+/-- a chunk that is not first on its line, spaces only: exactly the difference to the column `sameLineCol` gives it -/
 theorem textIndent_gap (c : OutCfg) (o : RenderOpts) (s : OutSt) (pc : Chunk) (prevCol prevLen : Nat)
     (hdn : s.didNl = false) (hl : s.last ≠ 13)
-    (hat : ¬ ((o.alignWithTabs = true ∧ pc.wasAligned = true ∧ prevCol + prevLen + 1 ≠ max pc.col s.col)
+    (hat : ¬ ((o.alignWithTabs = true ∧ pc.wasAligned = true ∧ prevCol + prevLen + 1 ≠ sameLineCol s pc)
               ∨ (o.alignKeepTabs = true ∧ pc.afterTab = true))) :
-    flushed (textIndent c o s pc prevCol prevLen) = List.replicate (pc.col - s.col) 32 ++ flushed s ∧
+    flushed (textIndent c o s pc prevCol prevLen) = List.replicate (sameLineCol s pc - s.col) 32 ++ flushed s ∧
     (textIndent c o s pc prevCol prevLen).last ≠ 13 := by
-  have hmax : (if pc.col < s.col then s.col else pc.col) = max pc.col s.col := by split <;> omega
-  rw [textIndent_of_not_didNl c o s pc prevCol prevLen hdn, hmax]
-  have hat' : decide ((o.alignWithTabs = true ∧ pc.wasAligned = true ∧ prevCol + prevLen + 1 ≠ max pc.col s.col)
+  rw [textIndent_of_not_didNl c o s pc prevCol prevLen hdn, sameLineCol_trail]
+  have hat' : decide ((o.alignWithTabs = true ∧ pc.wasAligned = true ∧ prevCol + prevLen + 1 ≠ sameLineCol s pc)
               ∨ (o.alignKeepTabs = true ∧ pc.afterTab = true)) = false := by simpa using hat
   rw [hat']
-  have hr := toCol_spaces c { s with trail := pc.ty = "STRING_MULTI" } (max pc.col s.col) hl
-  have e : max pc.col s.col - s.col = pc.col - s.col := by omega
-  rw [e] at hr
+  have hr := toCol_spaces c { s with trail := pc.ty = "STRING_MULTI" } (sameLineCol s pc) hl
   exact ⟨hr.fl, hr.last⟩
+
+/-- the column is never left of what was written, and right of it by at least one between two words -/
+theorem sameLineCol_ge (s : OutSt) (pc : Chunk) : sameLineCol s pc ≥ s.col := by
+  unfold sameLineCol
+  simp only []
+  split <;> split <;> omega
+
+theorem sameLineCol_words (s : OutSt) (pc : Chunk) (x : CP) (rest : List CP) (htxt : pc.txt = x :: rest)
+    (hl : s.last > 0) (h2 : isKw2 s.last = true) (h1 : isKw1 x = true) : sameLineCol s pc > s.col := by
+  unfold sameLineCol
+  simp only [htxt, List.length_cons, List.head?_cons, Option.getD_some]
+  by_cases hlt : pc.col < s.col
+  · simp only [hlt, if_true]
+    have : (True ∧ rest.length + 1 > 0 ∧ s.last > 0 ∧ isKw2 s.last = true ∧ isKw1 x = true) := ⟨trivial, by omega, hl, h2, h1⟩
+    rw [if_pos this]; omega
+  · simp only [hlt, if_false]
+    by_cases he : pc.col = s.col
+    · have : (pc.col = s.col ∧ rest.length + 1 > 0 ∧ s.last > 0 ∧ isKw2 s.last = true ∧ isKw1 x = true) := ⟨he, by omega, hl, h2, h1⟩
+      rw [if_pos this]; omega
+    · have : ¬ (pc.col = s.col ∧ rest.length + 1 > 0 ∧ s.last > 0 ∧ isKw2 s.last = true ∧ isKw1 x = true) := fun h => he h.1
+      rw [if_neg this]; omega
 
 /-- the general branch writes: the indentation, the first code point of the text, then the rest -/
 theorem renderText_rout_after (c : OutCfg) (o : RenderOpts) (s : RSt) (pc : Chunk) (prevCol prevLen : Nat)
